@@ -32,10 +32,16 @@ typedef __int128 wide;
 #define SM_TIER 1
 #endif
 
+/* must-fail twin (-DTWIN): the postconditions of the FIRST tuple of each section are negated and must fail; all others
+ * stay as they are (each failing assertion costs the solver one more call on the whole batch) */
 #ifdef TWIN
-#define ENS(c, msg) __CPROVER_assert(!(c), "ensures: TWIN (negated) " msg)
+#define ENS(c, msg) __CPROVER_assert(twin_here ? !(c) : (c), "ensures: TWIN (negated for the first tuple of each section) " msg)
+#define TWIN_ON twin_here = 1;
+#define TWIN_OFF twin_here = 0;
 #else
 #define ENS(c, msg) __CPROVER_assert((c), "ensures: " msg)
+#define TWIN_ON
+#define TWIN_OFF
 #endif
 
 #ifdef REACH
@@ -117,5 +123,6 @@ typedef __int128 wide;
 /* one harness per function family; the target's -DSEC_<section> defines select the tuples, SM_TIER the subset */
 void h_sm(void)
 {
+    _Bool twin_here = 0;
 #include "sm_checks.inc"
 }
